@@ -691,6 +691,7 @@ STD_ACCESSORS = {
 STD_ADDRESS_ONLY = {
     "index", "index_mut", "deref", "deref_mut", "as_ref", "as_mut", "as_slice", "as_mut_slice", "borrow", "borrow_mut",
     "iter", "iter_mut", "by_ref", "into_iter", "split_at_mut", "chunks_mut", "first_mut", "last_mut", "get_mut",
+    "next", "next_back", "skip", "take", "rev", "step_by", "enumerate",
 }
 # std functions that neither write through nor retain their reference arguments
 STD_PURE = {
@@ -704,7 +705,8 @@ STD_PURE = {
 # std mutators that overwrite / move elements without inspecting them
 STD_WRITE_ONLY = {
     "fill", "rotate_left", "rotate_right", "insert", "push", "extend", "truncate",
-    "clear", "resize", "reserve", "swap", "push_str", "extend_from_slice",
+    "clear", "resize", "reserve", "swap", "push_str", "extend_from_slice", "copy_within", "clone_from", "splice", "drain",
+    "skip", "take", "rev", "step_by", "enumerate",
 }
 
 
